@@ -5,7 +5,7 @@ import json, os, re, subprocess, sys, time
 VERIF = os.path.dirname(os.path.dirname(os.path.abspath(__file__)))
 SEEDED = os.path.join(VERIF, "seeded")
 names = sys.argv[1:] or sorted(d for d in os.listdir(SEEDED) if os.path.isdir(os.path.join(SEEDED, d)))
-res_path = os.path.join(SEEDED, "results.json")
+res_path = os.environ.get("SEED_RESULTS") or os.path.join(SEEDED, "results.json")   # SEED_RESULTS: a shard of a parallel run writes its own file
 results = json.load(open(res_path)) if os.path.exists(res_path) else {}
 # a scratch worktree of /repo's HEAD stands in for /repo (VERIF_REPO), so that /repo itself stays usable meanwhile
 WT = os.environ.get("SEED_WT", "/tmp/wt_seedrun")
